@@ -90,3 +90,90 @@ func edSecretScalar(priv ed25519.PrivateKey) *scalar.Scalar {
 }
 
 func clone(b []byte) []byte { return append([]byte(nil), b...) }
+
+// Guarded places b at the start of a larger allocation followed by a pattern of
+// guard bytes and hands out a slice whose CAPACITY extends over the guard (as a
+// key read with os.ReadFile or cut out of a packet has).  A callee that appends to
+// its argument, or writes past what it was given, changes the guard; one that
+// modifies its argument changes the content.
+type Guarded struct {
+	buf  []byte
+	n    int
+	orig []byte
+}
+
+const guardLen = 48
+
+func NewGuarded(b []byte) *Guarded {
+	g := &Guarded{n: len(b), orig: clone(b)}
+	g.buf = make([]byte, len(b)+guardLen)
+	copy(g.buf, b)
+	for i := 0; i < guardLen; i++ {
+		g.buf[len(b)+i] = byte(0xA5 ^ i)
+	}
+	return g
+}
+
+// B is the slice to pass to the library: len(b) bytes, capacity len(b)+guardLen.
+func (g *Guarded) B() []byte { return g.buf[:g.n] }
+
+// Intact reports whether the content and the guard bytes are unchanged.
+func (g *Guarded) Intact() (content, guard bool) {
+	content = true
+	for i := 0; i < g.n; i++ {
+		if g.buf[i] != g.orig[i] {
+			content = false
+		}
+	}
+	guard = true
+	for i := 0; i < guardLen; i++ {
+		if g.buf[g.n+i] != byte(0xA5^i) {
+			guard = false
+		}
+	}
+	return
+}
+
+// PackedGuarded lays several byte strings out in ONE allocation, each followed by a
+// small header gap, the last one followed by guard bytes - the shape of a key ring
+// entry or a parsed packet ("key | header | input").  Every returned slice has spare
+// capacity that covers whatever follows it in the buffer.
+type PackedGuarded struct {
+	buf  []byte
+	orig []byte
+	offs []int
+	lens []int
+}
+
+const packGap = 5
+
+func NewPackedGuarded(parts ...[]byte) *PackedGuarded {
+	p := &PackedGuarded{}
+	for _, b := range parts {
+		p.offs = append(p.offs, len(p.buf))
+		p.lens = append(p.lens, len(b))
+		p.buf = append(p.buf, b...)
+		for i := 0; i < packGap; i++ {
+			p.buf = append(p.buf, byte(0xC3^i))
+		}
+	}
+	for i := 0; i < guardLen; i++ {
+		p.buf = append(p.buf, byte(0xA5^i))
+	}
+	p.buf = p.buf[:len(p.buf):len(p.buf)]
+	p.orig = clone(p.buf)
+	return p
+}
+
+// Part returns the i-th string: its own length, capacity up to the end of the buffer.
+func (p *PackedGuarded) Part(i int) []byte { return p.buf[p.offs[i] : p.offs[i]+p.lens[i]] }
+
+// Intact reports whether the whole buffer (contents, gaps, guard) is unchanged.
+func (p *PackedGuarded) Intact() bool {
+	for i := range p.buf {
+		if p.buf[i] != p.orig[i] {
+			return false
+		}
+	}
+	return true
+}
